@@ -2986,7 +2986,8 @@ int32_t writeRecordHeader(ssl_t *ssl, uint8_t type, uint8_t hsType,
             if (psGetPrngLocked(*c, ssl->cipher->blockSize,
                     ssl->userPtr) < 0)
             {
-                psTraceInfo("WARNING: psGetPrngLocked failed\n");
+                psTraceErrr("psGetPrngLocked failed: no explicit IV\n");
+                return MATRIXSSL_ERROR;
             }
             *c += ssl->cipher->blockSize;
         }
@@ -2997,7 +2998,8 @@ int32_t writeRecordHeader(ssl_t *ssl, uint8_t type, uint8_t hsType,
     {
         if (psGetPrngLocked(*c, ssl->enBlockSize, ssl->userPtr) < 0)
         {
-            psTraceInfo("WARNING: psGetPrngLocked failed\n");
+            psTraceErrr("psGetPrngLocked failed: no explicit IV\n");
+            return MATRIXSSL_ERROR;
         }
         *c += ssl->enBlockSize;
     }
